@@ -56,6 +56,16 @@ func join(wg *sync.WaitGroup, d time.Duration) bool {
 	}
 }
 
+// safely runs f; a panic of the code under test becomes a log event (which the trace spec rejects).
+func safely(lg *rlog, f func()) {
+	defer func() {
+		if r := recover(); r != nil {
+			lg.add(core.Ev{"op": "panic", "msg": fmt.Sprint(r)})
+		}
+	}()
+	f()
+}
+
 func yield(rd *rand.Rand) {
 	for i := rd.Intn(3); i > 0; i-- {
 		runtime.Gosched()
@@ -111,6 +121,7 @@ func evmax(enc *json.Encoder, rd *rand.Rand, rounds int) int {
 	var round, done atomic.Int64
 	var stop atomic.Bool
 	var wg sync.WaitGroup
+	lg := &rlog{}
 	for g := 1; g <= maxK; g++ {
 		wg.Add(1)
 		go func(g int) {
@@ -124,13 +135,12 @@ func evmax(enc *json.Encoder, rd *rand.Rand, rounds int) int {
 				}
 				j := cur.Load()
 				if g <= j.k {
-					j.e.Trigger(g)
+					safely(lg, func() { j.e.Trigger(g) })
 				}
 				done.Add(1)
 			}
 		}(g)
 	}
-	lg := &rlog{}
 	for r := int64(1); r <= int64(rounds); r++ {
 		k := 2 + rd.Intn(maxK-1)
 		em := rd.Intn(4)
@@ -210,13 +220,15 @@ func evchurn(enc *json.Encoder, rd *rand.Rand) int {
 		wg.Add(1)
 		go func() {
 			defer wg.Done()
-			for i := 0; i < 3; i++ {
-				yield(r)
-				a := int(aid.Add(1))
-				lg.add(core.Ev{"op": "tb", "a": a})
-				e.Trigger(a)
-				lg.add(core.Ev{"op": "te", "a": a})
-			}
+			safely(lg, func() {
+				for i := 0; i < 3; i++ {
+					yield(r)
+					a := int(aid.Add(1))
+					lg.add(core.Ev{"op": "tb", "a": a})
+					e.Trigger(a)
+					lg.add(core.Ev{"op": "te", "a": a})
+				}
+			})
 		}()
 	}
 	for g := 0; g < nhook; g++ {
@@ -224,6 +236,11 @@ func evchurn(enc *json.Encoder, rd *rand.Rand) int {
 		wg.Add(1)
 		go func() {
 			defer wg.Done()
+			defer func() {
+				if x := recover(); x != nil {
+					lg.add(core.Ev{"op": "panic", "msg": fmt.Sprint(x)})
+				}
+			}()
 			for i := 0; i < 4; i++ {
 				yield(r)
 				if r.Intn(2) == 0 {
@@ -290,10 +307,12 @@ func promiseRace(enc *json.Encoder, rd *rand.Rand) int {
 		wg.Add(1)
 		go func() {
 			defer wg.Done()
-			for i := 0; i < 3; i++ {
-				yield(r)
-				register(r, false)
-			}
+			safely(lg, func() {
+				for i := 0; i < 3; i++ {
+					yield(r)
+					register(r, false)
+				}
+			})
 		}()
 	}
 	for t := 1; t <= 2; t++ {
@@ -308,9 +327,11 @@ func promiseRace(enc *json.Encoder, rd *rand.Rand) int {
 			if zero {
 				v = 0
 			}
-			lg.add(core.Ev{"op": "ptb", "t": t, "v": v})
-			res := p.Trigger(t)
-			lg.add(core.Ev{"op": "pte", "t": t, "r": res})
+			safely(lg, func() {
+				lg.add(core.Ev{"op": "ptb", "t": t, "v": v})
+				res := p.Trigger(t)
+				lg.add(core.Ev{"op": "pte", "t": t, "r": res})
+			})
 		}(t)
 	}
 	hung := []any{}
@@ -337,9 +358,11 @@ func notifierRace(enc *json.Encoder, rd *rand.Rand) int {
 		cmu.Lock()
 		cancels[t] = cancel
 		cmu.Unlock()
-		lg.add(core.Ev{"op": "wb", "t": t, "l": id})
-		err := l.Wait(ctx)
-		lg.add(core.Ev{"op": "we", "t": t, "l": id, "r": waitResult(err)})
+		safely(lg, func() {
+			lg.add(core.Ev{"op": "wb", "t": t, "l": id})
+			err := l.Wait(ctx)
+			lg.add(core.Ev{"op": "we", "t": t, "l": id, "r": waitResult(err)})
+		})
 		cmu.Lock()
 		delete(cancels, t)
 		cmu.Unlock()
@@ -350,6 +373,11 @@ func notifierRace(enc *json.Encoder, rd *rand.Rand) int {
 		workers.Add(1)
 		go func() {
 			defer workers.Done()
+			defer func() {
+				if x := recover(); x != nil {
+					lg.add(core.Ev{"op": "panic", "msg": fmt.Sprint(x)})
+				}
+			}()
 			for i := 0; i < 4; i++ {
 				yield(r)
 				id, v := int(lid.Add(1)), 1+r.Intn(2)
@@ -383,13 +411,15 @@ func notifierRace(enc *json.Encoder, rd *rand.Rand) int {
 		workers.Add(1)
 		go func() {
 			defer workers.Done()
-			for i := 0; i < 4; i++ {
-				yield(r)
-				id, v := int(nid.Add(1)), 1+r.Intn(2)
-				lg.add(core.Ev{"op": "nb", "n": id, "v": v})
-				n.Notify(v)
-				lg.add(core.Ev{"op": "ne", "n": id})
-			}
+			safely(lg, func() {
+				for i := 0; i < 4; i++ {
+					yield(r)
+					id, v := int(nid.Add(1)), 1+r.Intn(2)
+					lg.add(core.Ev{"op": "nb", "n": id, "v": v})
+					n.Notify(v)
+					lg.add(core.Ev{"op": "ne", "n": id})
+				}
+			})
 		}()
 	}
 	hung := []any{}
